@@ -21,7 +21,8 @@ fn history(max_mem: usize, sizes: &[u16], expect: Shape, s_rel: i64) {
     }
     let len: u64 = kani::any();
     kani::assume(len <= 4);
-    let mut out: Vec<(Item, (u64, u64))> = Vec::with_capacity(8);
+    let mut out: Vec<(Item, (u64, u64))> = Vec::new();
+    out.reserve_exact(8);
     let rr = log.readv((s, a), len, &mut out);
     match &rr {
         Ok(pos) => check_read(&expect, (s, a), len, &out, *pos),
@@ -35,18 +36,18 @@ fn history(max_mem: usize, sizes: &[u16], expect: Shape, s_rel: i64) {
 
 // 5 appends, 1 segment allowed: [1024] [512 512] [7] -> only the last survives... (policy:
 // rotate when the active segment is full at the NEXT append)
-proof_tracing_off!(8, h_m1_rotate_twice, {
+proof_c13!(8, h_m1_rotate_twice, {
     // sizes: 1024 | 512 512 | 7      -> segments {0:[1]} {1:[2,3]} {2:[4]}, max 1 => only seg 2 kept
     history(1, &[1024, 512, 512, 7], Shape { nseg: 1, counts: [1, 0, 0], head: 2, base: 3, id0: 4 }, 0)
 });
-proof_tracing_off!(8, h_m1_stale, {
+proof_c13!(8, h_m1_stale, {
     history(1, &[1024, 512, 512, 7], Shape { nseg: 1, counts: [1, 0, 0], head: 2, base: 3, id0: 4 }, -1)
 });
-proof_tracing_off!(8, h_m2_big_entries, {
+proof_c13!(8, h_m2_big_entries, {
     // 2048 | 1 1023 | 0 -> {0:[1]} {1:[2,3]} {2:[4]}, max 2 => segs 1,2 kept
     history(2, &[2048, 1, 1023, 0], Shape { nseg: 2, counts: [2, 1, 0], head: 1, base: 1, id0: 2 }, 0)
 });
-proof_tracing_off!(8, h_m3_no_eviction, {
+proof_c13!(8, h_m3_no_eviction, {
     // 1024 | 1024 | 5 5 -> three segments, max 3 => all kept
     history(3, &[1024, 1024, 5, 5], Shape { nseg: 3, counts: [1, 1, 2], head: 0, base: 0, id0: 1 }, 1)
 });
